@@ -131,11 +131,16 @@ def envelopeAllocOld (bs : Bytes) : Nat :=
 
 def fastPathFrameSize : Nat := 10485760
 
-/-- internal/frame/reader.go: frames below `_fastPathFrameSize` are pre-allocated, larger ones copied. -/
-def frameAlloc (bs : Bytes) : Nat :=
+/-- internal/frame/reader.go with the threshold as a parameter (the harness lowers it through the
+verif hook so that short inputs reach the copying path): frames below it are pre-allocated, larger
+ones copied. -/
+def frameAllocT (thr : Nat) (bs : Bytes) : Nat :=
   match rdN 4 bs with
   | none => 0
-  | some (n, r) => if n < fastPathFrameSize then n else 4 * (min n r.length) + 1024
+  | some (n, r) => if n < thr then n else 4 * (min n r.length) + 1024
+
+/-- internal/frame/reader.go: frames below `_fastPathFrameSize` are pre-allocated, larger ones copied. -/
+def frameAlloc (bs : Bytes) : Nat := frameAllocT fastPathFrameSize bs
 
 /-- generated `Decode` helpers pre-size from the header count (`make(T, 0, n)` / `make(map, n)`),
 `elemSize` bytes per element, before reading any element: finding D3. -/
